@@ -132,11 +132,38 @@ class TailMethodToCall(Rule):
         return [Edit(st, st, "%s(" % self.func, "rule", self.id), Edit(x.start(), x.end(), ", %s)" % self.arg, "rule", self.id)]
 
 
+class AppendArg(Rule):
+    """B*: append a (ghost) argument to every call matching `call_regex` (which must end at the opening paren)."""
+    def __init__(self, id, call_regex, arg, note="", min_count=0, rename=None):
+        Rule.__init__(self, id, call_regex, "", note, min_count=min_count)
+        self.arg, self.rename = arg, rename
+
+    def custom(self, src, m, item, in_skip):
+        out = []
+        for x in self.regex.finditer(m, item.body_open, item.body_close):
+            if in_skip(x.start()) or m[x.end() - 1] != "(":
+                continue
+            po = x.end() - 1
+            pc = rs.match_close(m, po)
+            inner = m[po + 1:pc]
+            if inner.strip() == "":
+                out.append(Edit(pc, pc, self.arg, "rule", self.id))
+            elif inner.rstrip().endswith(","):
+                out.append(Edit(pc, pc, " " + self.arg, "rule", self.id))
+            else:
+                out.append(Edit(pc, pc, ", " + self.arg, "rule", self.id))
+            if self.rename:
+                out.append(Edit(x.start(), x.end(), self.rename + "(", "rule", self.id))
+        return out
+
+
 class Loop:
-    def __init__(self, invariants=(), decreases=None, iter_name=None, desugar_range_for=False, attrs=None, continue_hint=None):
+    def __init__(self, invariants=(), decreases=None, iter_name=None, desugar_range_for=False, attrs=None, continue_hint=None,
+                 except_break=(), ensures=(), optional=False):
         self.invariants, self.decreases, self.iter_name = list(invariants), decreases, iter_name
         self.desugar_range_for, self.attrs = desugar_range_for, attrs
         self.continue_hint = continue_hint
+        self.except_break, self.ensures, self.optional = list(except_break), list(ensures), optional
 
 
 DROP = "drop"
@@ -342,14 +369,22 @@ def _fn_edits(spec, item, src, m, edits, rule_counts, clauses, top):
     # --- loops
     loops = rs.loops_in(m, item.body_open + 1, item.body_close, skip)
     for n, lp in spec.loops.items():
+        if n >= len(loops) and lp.optional:
+            continue
         if n >= len(loops):
             raise GenError("anchor lost: loop %d of %s (function has %d loops)" % (n, spec.qual, len(loops)))
         o, kw, bo, bc = loops[n]
         lind = _indent_at(src, o)
         inv = ""
+        if lp.except_break:
+            inv += _clauses_text("invariant_except_break", lp.except_break, lind + "    ")
+            clauses.extend(lp.except_break)
         if lp.invariants:
             inv += _clauses_text("invariant", lp.invariants, lind + "    ")
             clauses.extend(lp.invariants)
+        if lp.ensures:
+            inv += _clauses_text("ensures", lp.ensures, lind + "    ")
+            clauses.extend(lp.ensures)
         if lp.decreases:
             inv += "%s    decreases %s //@@clause:%s/loop%d.decreases\n" % (lind, lp.decreases, spec.qual, n)
         if lp.desugar_range_for:
@@ -410,6 +445,8 @@ def _fn_edits(spec, item, src, m, edits, rule_counts, clauses, top):
         elif a.startswith("loop:"):
             _, n, where_ = a.split(":")
             n = int(n)
+            if n >= len(loops) and h.optional:
+                continue
             if n >= len(loops):
                 raise GenError("anchor lost: %s in %s" % (a, spec.qual))
             o, kw, bo, bc = loops[n]
